@@ -32,6 +32,8 @@ CHECKS = {
          'truncation offsets complete inside the sampled window only; a silent open connection may keep a handler waiting (not decided); HTTP/0.9 request lines are answered by the standard library', '6 (C13)'),
  'C17': ('exploration', 'randomised framing knobs (chunk sizes, codings per party, recv fragmentation) per simulated provider+consumer session plus scripted peers with sloppy Accept-Encoding headers and corrupt / unsupported codings; every HTTP message on the simulated wire is re-parsed by a strict RFC 7230 parser, decoded and compared with the application-layer bytes; Content-Encoding checked against the governing Accept-Encoding',
          'the stream part of the property is decided; parsing arbitrary Accept-Encoding strings in isolation is covered only through the header variants scripted peers send; aiohttp session is a stub', '6 (C17)'),
+ 'C19': ('exploration', 'configuration matrix (provider TLS x consumer none/optional/enforced x own/shared HTTP server x alternative host name, enumerated over the batch) x seeded histories and schedules in the simulated stack with modelled TLS contexts; every URL a TLS-configured party writes and every connection it opens is inspected in the network history; static check of mk_ssl_contexts with the repo test certificates',
+         'TLS handshake/record layer is a model (which connection is wrapped with which context); certificates only in the static part', '6 (C19)'),
 }
 TECH = 'deterministic simulation with fault injection (seeded scheduler + virtual clock + simulated network, fork per run, ddmin replay)'
 
